@@ -80,7 +80,14 @@ class PropertyCheck:
         for i in range(n + len(ext)):
             # composed drawings, then drawings at the ends of the size axes (gen.extremes)
             t = gen.zoo(self.rng) if i < n else ext[i - n]
-            if self.rng.chance(1, 2):
+            sib = gen.sibling(t, self.rng) if i < n else None
+            if sib is not None:
+                # the drawing and a sibling that differs only inside a quoted label / in the legend, back to back in one
+                # process and through the same entry point
+                e = self.rng.choice(["to_svg", "compressed", "pretty"])
+                cases.append((t, backend.Settings(), e))
+                cases.append((sib, backend.Settings(), e))
+            elif self.rng.chance(1, 2):
                 cases.append((t, backend.Settings(), self.rng.choice(["to_svg", "compressed"])))
             else:
                 cases.append((t, backend.Settings(scale=self.rng.choice([8, 1, 0.5, 10]), b=self.rng.chance(1, 2),
